@@ -71,7 +71,7 @@ func ge(a, b lin) cons    { return le(b, a) }                                   
 func eqc(a, b lin) []cons { return []cons{le(a, b), le(b, a)} }                 // a == b
 
 type LB struct {
-	remBusy map[ssa.Value]bool
+	remBusy       map[ssa.Value]bool
 	fieldReps     map[string]ssa.Value
 	fieldWritten  map[string]bool
 	extra         []cons // facts valid on entry to the function (proved at every call site)
